@@ -49,7 +49,7 @@ def run(chk, args):
             by_model.setdefault(s["model"], []).append(s)
         groups = split(sorted(by_model), vlib.NCPU)
         reqs = [{"workdir": os.path.join(work, "m%d" % k), "scenarios": [s for m in g for s in by_model[m]],
-                 "rules": [24, 37, 48] if k == 0 else []} for k, g in enumerate(groups)]
+                 "rules": [20, 24, 37, 48] if k == 0 else []} for k, g in enumerate(groups)]
         outs = vlib.run_workers_parallel("w_orientavg.py", reqs, work, timeout=3000)
         evs = [e for o in outs for e in o]
         herr = [e for e in evs if e["ev"] == "HarnessError"]
@@ -87,9 +87,9 @@ def run(chk, args):
         "counts as non-trivial when the three rules agree to 1e-6 (convergence premise).")
     chk.assumptions += [
         "weak fit: the specification is a quadrature law evaluated by TLC, not a state space",
-        "the model's internal quadrature is taken as converged when three reference rules with 24, 37 and 48 nodes agree to "
-        "1e-6 (its own rule has 76 or more nodes); it cannot be re-run with more Gauss points from outside",
-        "ModelTol = 2e-3 (observed agreement on the unchanged tree: <= 6e-14 on all converged scenarios)",
+        "the model's internal quadrature is taken as converged when reference rules with 20, 24, 37 and 48 nodes agree to "
+        "1e-6 (the models' own rules have 20, 76 or 150 nodes); it cannot be re-run with more Gauss points from outside",
+        "ModelTol = 2e-5 = 20 x ConvTol (observed agreement on the unchanged tree: <= 1e-12 on all converged scenarios)",
         "quadrature nodes, weights and direction vectors computed by numpy are verified by the specification (Legendre recurrence)",
     ]
 
